@@ -95,7 +95,10 @@ func VerifH_C17_matchRules() {
 	cond := Cond(vf.Choose("cond", 2))
 	rs := RuleSet{Cond: cond, Rules: []Rule{r1, r2}}
 	rs.Prepare()
-	got := rs.Match(data)
+	var got bool
+	// rule sets are shared (antispam exceptions are matched from every input goroutine): matching must not write to them
+	writes := vf.SharedWrites(rs, func() { got = rs.Match(data) })
+	vf.Assert(writes == 0, "matching-does-not-write-to-the-shared-rule-set")
 	want := vf.And(w1, w2)
 	if cond == CondOr {
 		want = vf.Or(w1, w2)
